@@ -174,8 +174,11 @@ func inlinePackage(p *packages.Package, newTypes map[string]*types.Package, leve
 				continue
 			}
 			obj, ok := info.Defs[fd.Name].(*types.Func)
-			if !ok || obj.Exported() {
-				continue // exported API functions are anchors of the properties: never dissolved
+			if !ok {
+				continue
+			}
+			if obj.Exported() {
+				continue // exported API functions are anchors of the properties (rules look for calls to them): never dissolved
 			}
 			sig := obj.Type().(*types.Signature)
 			if sig.Variadic() {
@@ -215,6 +218,7 @@ func inlinePackage(p *packages.Package, newTypes map[string]*types.Package, leve
 		pkg  *types.Package
 	}
 	var checks []check
+	var curFile *ast.File
 	rewrite := func(call *ast.CallExpr) ast.Expr {
 		id, ok := call.Fun.(*ast.Ident)
 		if !ok {
@@ -227,6 +231,26 @@ func inlinePackage(p *packages.Package, newTypes map[string]*types.Package, leve
 		c := cands[fobj]
 		if c == nil || len(call.Args) != len(c.params) || call.Ellipsis.IsValid() {
 			return nil
+		}
+		// imported package names used by the helper must mean the same package in the caller's file
+		if fs := info.Scopes[curFile]; fs == nil {
+			return nil
+		} else {
+			agree := true
+			ast.Inspect(c.expr, func(m ast.Node) bool {
+				if id, isId := m.(*ast.Ident); isId {
+					if pn, isPn := info.Uses[id].(*types.PkgName); isPn {
+						o, _ := fs.Lookup(id.Name).(*types.PkgName)
+						if o == nil || o.Imported().Path() != pn.Imported().Path() {
+							agree = false
+						}
+					}
+				}
+				return agree
+			})
+			if !agree {
+				return nil
+			}
 		}
 		// occurrences of each parameter
 		occ := map[*types.Var]int{}
@@ -298,6 +322,7 @@ func inlinePackage(p *packages.Package, newTypes map[string]*types.Package, leve
 	}
 	if len(cands) > 0 {
 		for _, f := range files {
+			curFile = f
 			rewriteExprs(f, func(e ast.Expr) ast.Expr {
 				if call, ok := e.(*ast.CallExpr); ok {
 					return rewrite(call)
@@ -305,6 +330,39 @@ func inlinePackage(p *packages.Package, newTypes map[string]*types.Package, leve
 				return nil
 			})
 		}
+	}
+	// standard-library synonyms: bits.LenN(x) is N - bits.LeadingZerosN(x) by definition (math/bits); the rules
+	// speak about LeadingZeros only
+	for _, f := range files {
+		rewriteExprs(f, func(e ast.Expr) ast.Expr {
+			call, ok := e.(*ast.CallExpr)
+			if !ok || len(call.Args) != 1 {
+				return nil
+			}
+			sel, ok := call.Fun.(*ast.SelectorExpr)
+			if !ok {
+				return nil
+			}
+			pid, ok := sel.X.(*ast.Ident)
+			if !ok {
+				return nil
+			}
+			pn, ok := info.Uses[pid].(*types.PkgName)
+			if !ok || pn.Imported().Path() != "math/bits" {
+				return nil
+			}
+			width := map[string]string{"Len64": "64", "Len32": "32", "Len16": "16", "Len8": "8"}[sel.Sel.Name]
+			if width == "" {
+				return nil
+			}
+			cp := *pid
+			checks = append(checks, check{&cp, "math/bits", nil})
+			nInl++
+			return &ast.ParenExpr{X: &ast.BinaryExpr{
+				X:  &ast.BasicLit{Kind: token.INT, Value: width, ValuePos: call.Pos()},
+				Op: token.SUB, OpPos: call.Pos(),
+				Y: &ast.CallExpr{Fun: &ast.SelectorExpr{X: &cp, Sel: &ast.Ident{Name: "LeadingZeros" + width, NamePos: sel.Sel.Pos()}}, Lparen: call.Lparen, Args: call.Args, Rparen: call.Rparen}}}
+		})
 	}
 	recheck := func() (*types.Package, *types.Info, error) {
 		ninfo := &types.Info{
